@@ -199,12 +199,12 @@ func blockCacheCoherent(c *q.Ctx) {
 // switch, the trunk height otherwise. Judged against the OLD trunk height, a reorganisation that re-includes a
 // transaction of the abandoned branch (whose inputs are current again) is refused and the node stays on the short fork.
 func dupTxDecision(c *q.Ctx, cb *ssa.Function) {
-		old := "phi{local<InternalBlock>|newmap<map[string]*InternalBlock>[local<Transaction>.Blockid]}"
-		dup1 := q.Cond{Canon: old + ".InTrunk", Sense: true}
-		dup2 := q.Cond{Canon: "p1.InTrunk", Sense: true}
-		dup3 := q.Cond{Canon: "(phi{ledger.(*Ledger).handleFork(*)#0.Height|proto.Clone(p0.meta).TrunkHeight} < " + old + ".Height)", Sense: false}
-		c.Effect(cb, q.Eff{Spec: "Ledger.handleFork", Arg: 0, Glob: "*", Why: "anchor", Rule: "K6"})
-		c.FieldStoreUnder(cb, "ConfirmStatus.Error", "g:ErrTxDuplicated", []q.Cond{dup1, dup2, dup3}, "a transaction already in a trunk block at or below the split height rejects the block (three conjuncts)")
+	old := "phi{local<InternalBlock>|newmap<map[string]*InternalBlock>[local<Transaction>.Blockid]}"
+	dup1 := q.Cond{Canon: old + ".InTrunk", Sense: true}
+	dup2 := q.Cond{Canon: "p1.InTrunk", Sense: true}
+	dup3 := q.Cond{Canon: "(phi{ledger.(*Ledger).handleFork(*)#0.Height|proto.Clone(p0.meta).TrunkHeight} < " + old + ".Height)", Sense: false}
+	c.Effect(cb, q.Eff{Spec: "Ledger.handleFork", Arg: 0, Glob: "*", Why: "anchor", Rule: "K6"})
+	c.FieldStoreUnder(cb, "ConfirmStatus.Error", "g:ErrTxDuplicated", []q.Cond{dup1, dup2, dup3}, "a transaction already in a trunk block at or below the split height rejects the block (three conjuncts)")
 }
 
 // ledgerMetaStaging (C04, C06): the ledger meta that goes into the batch is serialised AFTER its last field was set -
